@@ -39,6 +39,8 @@ RetimeOK(m1, m2, r) ==
   /\ Ck("RetimeTotal", Eq(Total(r), Total(m2)))
   /\ Ck("RetimeNonNeg", \A i \in 1..Len(r) : NonNeg(r[i]))
   /\ Ck("RetimeAboveRound1", \A i \in 1..Len(r) : Le(m1[i], r[i]))
+\* ... and the series the feed round is actually given (whichever path produced it) is at or above the one the no-feed round was given
+GivenOK(m1, g) == Ck("RetimeAboveRound1", Len(m1) = Len(g) /\ \A i \in 1..Len(g) : Le(m1[i], g[i]))
 \* when the feed round yields less meat in total, the round is skipped instead
 \* what the next round is told: the running total it may eat from is the cumulative sum of the monthly series it is given
 RECURSIVE Prefix(_, _)
